@@ -4,6 +4,7 @@ package kcache
 
 import (
 	"github.com/boz/kcache/zzverif"
+	pkgerrors "github.com/pkg/errors"
 	metav1 "k8s.io/apimachinery/pkg/apis/meta/v1"
 )
 
@@ -51,6 +52,11 @@ func VerifC16_Monitor() {
 	if zzverif.NondetInt("content", 0, 1) == 1 {
 		sub.content = []metav1.Object{p0}
 	}
+	listFails := zzverif.NondetInt("list-fails", 0, 1) == 1
+	if listFails {
+		// the cache below the subscription has already stopped when readiness is signalled
+		sub.listErr = pkgerrors.WithStack(ErrNotRunning)
+	}
 	h := &vRecHandler{busy: make(chan struct{}, 1), monch: make(chan Monitor, 1)}
 	m, err := NewMonitor(&vFakePublisher{sub: sub}, h)
 	zzverif.Assert(err == nil, "C16/new")
@@ -67,7 +73,7 @@ func VerifC16_Monitor() {
 			ready = true
 			close(sub.readych)
 		case 1:
-			if closedSub || closedMon {
+			if closedSub || closedMon || (listFails && ready) {
 				zzverif.Assume(false) // a closed subscription delivers nothing more
 			}
 			ev := NewEvent(EventType(zzverif.NondetString("etype")), vSymPod("e"))
@@ -90,6 +96,18 @@ func VerifC16_Monitor() {
 	zzverif.Quiesce()
 
 	calls := h.calls
+	if listFails {
+		// the content at readiness could not be read: no callback at all, and the monitor stops
+		zzverif.Assert(len(calls) == 0, "C16/no-callback-if-content-unreadable")
+		if ready {
+			zzverif.Assert(vClosed(m.Done()), "C16/done-after-list-error")
+			if !closedSub && !closedMon {
+				zzverif.Assert(m.Error() != nil, "C16/done-after-list-error")
+			}
+			zzverif.Reach("C16/list-error")
+		}
+		return
+	}
 	// initialize: at most once, first, with the cache content at readiness
 	ninit := 0
 	for i, c := range calls {
